@@ -1751,7 +1751,25 @@ def _all_py_ints(o):
 
 def _np_array(obj, dtype=None, **kw):
     if dtype is object and isinstance(obj, (list, tuple)):
-        return XArray((len(obj),), [exact_tree(x) for x in obj])
+        # an object array: the nested LISTS give the shape, whatever sits in the innermost lists (numbers, arrays) is an entry
+        def lists_shape(o):
+            if isinstance(o, (list, tuple)) and o and all(isinstance(x, (list, tuple)) for x in o) and len({len(x) for x in o}) == 1:
+                return (len(o),) + lists_shape(o[0])
+            return (len(o),) if isinstance(o, (list, tuple)) else ()
+
+        shp = lists_shape(obj)
+
+        def leaves(o, depth):
+            if depth == 0:
+                return [o if isinstance(o, XArray) else exact_tree(o)]
+            out = []
+            for x in o:
+                out.extend(leaves(x, depth - 1))
+            return out
+
+        res = XArray(shp, leaves(obj, len(shp)))
+        res.dtype = "O"
+        return res
     kind = _kind_of(dtype) if dtype is not None else ("i" if _all_py_ints(obj) else None)
     a = XArray.from_nested(exact_tree(obj) if not isinstance(obj, XArray) else obj)
     a.dtype = kind
